@@ -133,6 +133,7 @@ def groups():
         sfx = '' if tier == 'quick' else f'_K{K}'
         gs.append(Group('dbgB_setBreakPoint' + sfx, DBG_PROPS + ['C08'], 'Theo::VM::setBreakPoint (VM/src/vm.cpp)', 'c_setBreakPoint',
                         _dbg_build('setBreakPoint', loops=True, cdefs=[f'TBL_CAP={K}']), timeout=1800, expect_loops=1, tier=tier, bounded=BND % K))
+    gs += act_groups()
     return gs
 
 
